@@ -87,7 +87,13 @@ func build(kind, ctor string, data []byte) *inst {
 	var b []byte
 	switch ctor {
 	case "bytes_spare", "reader_bytes":
-		full := make([]byte, len(data)+3)
+		// spare capacity behind the slice: exactly one byte (the case in which the terminator fits only just), two or three
+		extra, sum := 1, len(data)
+		for _, c := range data {
+			sum += int(c)
+		}
+		extra = []int{1, 3, 1, 2}[sum%4]
+		full := make([]byte, len(data)+extra)
 		copy(full, data)
 		for i := len(data); i < len(full); i++ {
 			full[i] = 0xAA
